@@ -77,6 +77,7 @@ func (c *Cache[K, D]) Load(key K) (actual *Element[D]) {
 func (c *Cache[K, D]) CheckExpirations(now time.Time) {
 	c.Range(func(key K, value *Element[D]) bool {
 		if value.IsExpired(now) {
+			verifYield("cache.CheckExpirations")
 			c.Delete(key)
 			value.onExpire(value.Data())
 		}
